@@ -4,10 +4,14 @@ CONSTANTS Procs = {p1, p2, p3}
  Caught = {"eof", "trunc", "type"}
  GuardedRemove = TRUE
  Merge = TRUE
- InitKinds = {"missing", "empty", "partial", "valid", "stale", "junk"}
+ RemovesStale = TRUE
+ ChecksFolder = TRUE
+ ExistOk = TRUE
+ InitKinds = {"missing", "empty", "partial", "valid", "stale", "junk", "nofolder"}
 SPECIFICATION Spec
 INVARIANT NoFatal
 INVARIANT NeverTrustDamaged
+INVARIANT NeverTrustStale
 INVARIANT MutualExclusion
 PROPERTY Progress
 CHECK_DEADLOCK FALSE
